@@ -549,11 +549,11 @@ def table(pid, tier):
                  strict=[])
     elif pid == "C10":
         insts = [chan(tier, "block", 1, True), chan(tier, "oldest", 1, False), chan_default(tier),
-                 life(tier, "chan", "block", "latest", 1)] + \
+                 life(tier, "chan", "block", "latest", 1), stop_race(tier, "block", 1)] + \
             ([] if q else [chan(tier, "latest", 1, True), chan(tier, "block", 2, False), chan(tier, "oldest", 2, True)])
         inv = ["C10_OwnThread", "C10_Stream", "C10_Flush", "C10_NoStall", "C05_Bound"]
-        T = dict(mc=[(i, inv, []) for i in insts], gen=[(i, 550 if q else 10000) for i in insts[:4]],
-                 free=[(i, 50 if q else 500) for i in insts],
+        T = dict(mc=[(i, inv, []) for i in insts], gen=[(i, 450 if q else 10000) for i in insts[:5]],
+                 free=[(i, 40 if q else 500) for i in insts],
                  live=[(insts[0], ["Live_ClientsDone", "Live_StopReturns"])])      # unsubscribe() and stop() return
     elif pid == "C11":
         insts = [effects(tier, 0), effects(tier, 4), effects(tier, 5), effects(tier, 1), effects(tier, 3)] + \
